@@ -39,8 +39,9 @@ def drivers():
             badrec[slot, 6] = exp
 
     @numba.njit(cache=False)
-    def check(y, is_cons, got, fe, ub, rounds, a, b, c, dd, e, f, badrec,
+    def check(y, is_cons, got, fe, ubs, rounds, a, b, c, dd, e, f, badrec,
               idx, s, cell, val):
+        ub = ubs[s]
         if (got == 0) != fe:
             record(badrec, 2, 2, idx, s, cell, val, got, 0 if fe else 1)
         if got < 0 or got > ub:
@@ -52,7 +53,7 @@ def drivers():
                 record(badrec, 1, 1, idx, s, cell, val, got, exp)
 
     @numba.njit(cache=False)
-    def drive_errors(cfg, days, start, stop, settings, rounds, ub,
+    def drive_errors(cfg, days, start, stop, settings, rounds, ubs,
                      corrupt, hist, res, pad, badrec):
         """
         Run count_errors on all plans [start, stop) x all settings.
@@ -82,14 +83,14 @@ def drivers():
                 f = settings[s, 5]
                 got = count_errors(y, a, b, c, dd, e, f, t1, t2)
                 res[0] += 1
-                if 0 <= got <= ub:
+                if 0 <= got < hist.shape[0]:
                     hist[got] += 1
                 fe = feas(y, rounds, a, b, c, dd, e, f)
                 if fe:
                     res[1] += 1
                 if got == 0:
                     res[9] += 1
-                check(y, is_cons, got, fe, ub, rounds, a, b, c, dd, e, f,
+                check(y, is_cons, got, fe, ubs, rounds, a, b, c, dd, e, f,
                       badrec, idx, s, -1, 0)
                 if corrupt != 0:
                     for cell in range(days * n):
@@ -102,10 +103,10 @@ def drivers():
                             y[d0, c0] = val
                             got = count_errors(y, a, b, c, dd, e, f, t1, t2)
                             res[0] += 1
-                            if 0 <= got <= ub:
+                            if 0 <= got < hist.shape[0]:
                                 hist[got] += 1
                             fe = feas(y, rounds, a, b, c, dd, e, f)
-                            check(y, cons(y), got, fe, ub, rounds, a, b, c,
+                            check(y, cons(y), got, fe, ubs, rounds, a, b, c,
                                   dd, e, f, badrec, idx, s, cell, val)
                         y[d0, c0] = orig
         dmg = 0
